@@ -46,7 +46,7 @@ def has_clean_after_roll(b):
     return False
 
 
-def execute(behaviours, d, test, sub, timeout=1200):
+def execute(behaviours, d, test, sub, timeout=900):
     stim = os.path.join(d, 'stim.json')
     trace = os.path.join(d, 'trace.ndjson')
     core.write_json(stim, {'behaviours': behaviours})
@@ -94,7 +94,7 @@ def judge(rep, prop, behaviours, trace, names, timeout=1700):
     return res
 
 
-def run_check(rep, tier, seed, replay, prop, names, nontrivial, rule, quick_num=700, thorough_num=8000):
+def run_check(rep, tier, seed, replay, prop, names, nontrivial, rule, quick_num=500, thorough_num=5000):
     """the pipeline shared by C08 and C09: design check -> simulate -> execute -> TLC judges -> evidence"""
     import random
     import time
@@ -145,6 +145,17 @@ def run_check(rep, tier, seed, replay, prop, names, nontrivial, rule, quick_num=
     rep.cov['cleans_with_appends_in_window'] = sum(
         1 for b in behaviours for i, s in enumerate(b['steps'])
         if s['a'] == 'CleanBegin' and i + 1 < len(b['steps']) and b['steps'][i + 1]['a'] == 'Append')
+    def drains_after_clean(b):
+        seen, n = False, 0
+        for s in b['steps']:
+            if s['a'] in CLEANS:
+                seen = True
+            if s['a'] == 'Reopen':
+                seen = False
+            if s['a'] == 'Drain' and seen:
+                n += 1
+        return n
+    rep.cov['persistent_reader_drains_after_a_clean'] = sum(drains_after_clean(b) for b in behaviours)
     rep.cov['rule'] = rule
     rep.cov['samples'] = behaviours[:2]
     rep.assumptions += ['single appender (lock-step driver); Clean() parked at the clean.before_swap gate',
